@@ -154,7 +154,7 @@ func TestC11(t *testing.T) {
 	})
 	p = c.rec.NewPart("rapid_case", "rapid: fragment-grammar input / vector / mutated corpus x drawn mask", true, false, "")
 	g := gen.HTMLInput()
-	c.Rapid(p, 8, pick(25000, 700000), func(rt *rapid.T, sh int) ev.Case {
+	c.Rapid(p, 8, pick(100000, 900000), func(rt *rapid.T, sh int) ev.Case {
 		var s string
 		switch rapid.IntRange(0, 3).Draw(rt, "src") {
 		case 0:
@@ -184,7 +184,7 @@ func TestC11(t *testing.T) {
 		}
 	})
 	p = c.rec.NewPart("rapid_nul", "rapid: fragment-grammar input / mutated vector x context x drawn inside position x 1..3 NULs", true, false, "")
-	c.Rapid(p, 8, pick(25000, 700000), func(rt *rapid.T, sh int) ev.Case {
+	c.Rapid(p, 8, pick(100000, 900000), func(rt *rapid.T, sh int) ev.Case {
 		var s string
 		if rapid.Bool().Draw(rt, "src") {
 			s = g.Draw(rt, "s")
